@@ -20,7 +20,7 @@ pub struct Root {
 
 pub fn scenario_for(r: &Root, strategy: Strategy, comp_id: u128) -> Scenario {
     let pols = (0..r.prog.parties).map(|p| server::policy_for(&r.prog, comp_id, p, r.leader, r.inputs[p], r.out_mask[p])).collect();
-    Scenario { policies: vec![pols], concurrency: 2, strategy, gate_msgs: true, gate_replies: false, fail_rpc: None, injections: vec![], skip_schedule: vec![], max_steps: 20_000, fail_outputs: false, alt_policies: vec![] }
+    Scenario { policies: vec![pols], concurrency: 2, strategy, gate_msgs: true, gate_replies: false, fail_rpc: None, injections: vec![], skip_schedule: vec![], max_steps: 20_000, fail_outputs: false, alt_policies: vec![], hold_msgs_of_after_cancel: None }
 }
 
 /// The C13 oracle on one quiescent execution of one computation.
